@@ -1,18 +1,20 @@
 /-
 C06, incremental part — "when an input change removes or creates a cycle the results follow".
 
-This part of the property is FALSE for the code as it is.  The witnesses below are kernel-checked
+This part of the property was FALSE for the code as found and holds on every replay for the code as it is NOW (after
+the repairs listed below; there is no positive theorem for it: it is decided by the correspondence and the oracle).
+The witnesses below are kernel-checked
 evaluations of the full engine model (Model/Engine.lean) on the canonical replays of
 corpus/engine-cyclic; the same replays are run on the real engine on every `tools/check C06` (where
-the implementation answers line by line what the as-is model answers), and with the corresponding
-findings switched to "repaired" the model returns the from-scratch values.
+the implementation answers line by line what the default model answers).
 
 `{}` (default `Toggles`) is the code as it is NOW.  Fixed in /repo: F2 (531aeb1), F16 (3fbfd09), F33
-(4685b5a), F14 (b832249), F1 (2abe9f6); the hang of F30 disappeared with the F1 fix.  Every
-HISTORICAL witness names its configuration explicitly (`beforeF2`, `beforeF16`, `beforeF16F33`,
-`beforeF1`: the current code with exactly that fix switched off) and is paired with a `…_fixed_…`
-theorem stating that `{}` returns the from-scratch answer on the same replay.  F3, F31 and F32 still
-fail with `{}`; F32 is now triggered by the F1 fix itself (`cycle_incremental_F32_trigger`).
+(4685b5a), F14 (b832249), F1 (2abe9f6), F3/F31/F32 (1f41826: toggles f34 f35 f36); the hang of F30 disappeared with the F1 fix.  Every
+HISTORICAL witness names its configuration explicitly (`beforeSccFix`, `beforeF2`, `beforeF16`, `beforeF16F33`,
+`beforeF1`: the code before 1f41826, resp. that code with exactly one more fix switched off) and is paired with a `…_fixed_…`
+theorem stating that `{}` returns the from-scratch answer on the same replay.  The theorem names
+`cycle_incremental_asis_fails_*` are historical: "as is" = the code of that time; F32 was triggered by the F1 fix
+itself (`cycle_incremental_F32_trigger`) and is repaired by 1f41826 (`cycle_incremental_fixed_F32`).
 -/
 import QbiceVerif.Model.Engine
 namespace Qbice.Engine.C06
